@@ -51,6 +51,12 @@ type Dep interface {
 	D(t @{~/a/foo}.T, rest ...*@{~/b/foo}.T) (@{~/a/foo}.T, *@{~/b/foo}.T)
 }
 
+type Logger interface {
+	Errorf(ctx @{context}.Context, format string, args ...any) error
+	Logf(format string, args ...interface{})
+	Tags(a, b, c string, rest ...string)
+}
+
 // method names that an "exported name" helper would rewrite
 type Init interface {
 	Id() int
@@ -69,7 +75,7 @@ type dynBuild struct {
 	Dir          string
 }
 
-var dynIfaces = []string{"Two", "Void", "Gen", "Named", "Wide", "Emb", "Dep", "Init", "Weird"}
+var dynIfaces = []string{"Two", "Void", "Gen", "Named", "Wide", "Emb", "Dep", "Init", "Logger", "Weird"}
 
 func dynPkg(dir string) *SrcPkg {
 	sp := &SrcPkg{Dir: dir, Name: "dyn", Files: []SrcFile{{Name: "dyn.go", Decls: dynFamily}}}
@@ -127,6 +133,16 @@ func e3Prepare(fx *Fixture, rep *Report, shapePkgs []*SrcPkg, builds []dynBuild)
 		resp := pool.Fresh(c.req(fx))
 		if resp.Err != "" || resp.Died != "" || resp.Panic != "" {
 			fatalf("moq failed on the dynamic family (%s): %s%s%s", b.Dir, resp.Err, resp.Died, resp.Panic)
+		}
+		if tc := (&Result{Case: c, Resp: resp, Fx: fx, Src: fx.Src(b.Dir)}).Typecheck(); tc.ParseErr != nil || len(tc.Errs) > 0 {
+			// mocks that do not compile cannot be driven: the tree under test breaks the
+			// precondition of this property (and C01); reported, not a harness error
+			detail := fmt.Sprint(tc.ParseErr)
+			for _, e := range tc.Errs {
+				detail += "\n" + e.Error()
+			}
+			rep.Violate(&Violation{Diag: "precondition: generated mocks of the dynamic family do not type-check", Case: c.String(), Detail: firstLines(detail, 12), Features: []string{"e3:precondition"}})
+			return nil
 		}
 		must(os.WriteFile(filepath.Join(fx.Root, b.Dir, "zz_moq.go"), resp.Out, 0o644))
 		alias := strings.ReplaceAll(filepath.Base(b.Dir), "-", "_")
@@ -275,6 +291,11 @@ func runE3(prop, tier string) int {
 	addRtModule(fx)
 	validateFixture(fx)
 	specs := e3Prepare(fx, rep, dedupPkgs(shapePkgs), builds)
+	if specs == nil {
+		rep.Set("evaluations", 1)
+		rep.Set("distinct_nontrivial", 0)
+		return rep.Finish()
+	}
 	dir := writeE3Driver(fx, specs)
 	bin := filepath.Join(work, "e3driver")
 	if err := goBuild(fx, dir, bin); err != nil {
